@@ -351,6 +351,10 @@ func LoadFromViper(inputViper *viper.Viper) (Config, error) {
 
 	// then override with settings from input viper (higher precedence)
 	for _, key := range inputViper.AllKeys() {
+		// a flag that was not given only has its registered default: that must not override the file
+		if !inputViper.IsSet(key) {
+			continue
+		}
 		// Handle special case for prefixed keys
 		if strings.HasPrefix(key, "rollkit.") {
 			// Strip the prefix for the merged viper
